@@ -52,6 +52,12 @@ type ecaseJSON struct {
 	// spelling of the scheme of the inline MITM key material ("" = "data:"); a spelling the reader does not
 	// accept makes the process refuse to start, which is fine; one it accepts must be redacted
 	DataScheme string `json:"data_scheme,omitempty"`
+	// Class "refusedcfg": a CONFIGURATION the program refuses after all flags parsed (forwarder's own error paths):
+	// dup-hostport | dup-global | dup-host | dup-port (two --credentials entries for the same target, different
+	// passwords) | mitm-mismatch (inline CA certificate and key that do not belong together)
+	Refuse string `json:"refuse,omitempty"`
+	// SplitLogHTTP: every comma separated part of LogHTTP is given as its own --log-http occurrence
+	SplitLogHTTP bool `json:"split_log_http,omitempty"`
 }
 
 type runReport struct {
@@ -124,6 +130,32 @@ func binaryPlan(r *rng.R, thorough bool) []ecaseJSON {
 		c.UpstreamDown = true
 		p = append(p, c)
 	}
+	// several --log-http occurrences: a named mode holds whatever unnamed default comes before or after it
+	multi := []string{"proxy:url,headers", "headers,proxy:short-url", "proxy:errors,proxy:errors,body", "api:url,proxy:none,headers"}
+	if !thorough {
+		multi = multi[:3]
+	}
+	for i, mm := range multi {
+		c := mk("flag", []string{"info", "debug", "info", "debug"}[i], mm, "text", i%2 == 0, false)
+		c.SplitLogHTTP = true
+		p = append(p, c)
+	}
+	// configurations the program refuses by itself (not a flag's parser): the fatal line must not carry a secret
+	refusals := []struct{ refuse, source, level string }{{"dup-hostport", "flag", "error"}, {"dup-global", "env", "info"}, {"dup-host", "config", "debug"}}
+	if thorough {
+		refusals = nil
+		for _, rf := range []string{"dup-hostport", "dup-global", "dup-host", "dup-port", "mitm-mismatch"} {
+			for i, src := range []string{"flag", "env", "config"} {
+				refusals = append(refusals, struct{ refuse, source, level string }{rf, src, []string{"error", "info", "debug"}[i]})
+			}
+		}
+	} else {
+		refusals = append(refusals, struct{ refuse, source, level string }{"mitm-mismatch", "flag", "info"})
+	}
+	for _, rf := range refusals {
+		p = append(p, ecaseJSON{Kind: "binary", Class: "refusedcfg", Source: rf.source, Level: rf.level, LogHTTP: "url", Format: "text",
+			MITM: rf.refuse == "mitm-mismatch", Refuse: rf.refuse, Seed: r.U64()})
+	}
 	// inline key material whose scheme is spelt differently
 	alts := []struct{ scheme, source string }{{"DATA:", "flag"}, {"Data:", "config"}}
 	if thorough {
@@ -147,6 +179,7 @@ type secretSet struct {
 	Basic, API, Proxy, Site, Site2 string
 	ClientURL                      string // not configured: the password a CLIENT puts into a request URL
 	CAPEM, KeyPEM                  string // key material handed over as data: URIs
+	OtherKeyPEM                    string // a private key that does not belong to CAPEM
 }
 
 func genKeyMaterial() (certPEM, keyPEM string) {
@@ -196,6 +229,8 @@ func genSecretSets(c ecaseJSON) (a, b secretSet) {
 	b.Site2 = twin(r, a.Site2, forbidSite)
 	a.CAPEM, a.KeyPEM = genKeyMaterial()
 	b.CAPEM, b.KeyPEM = genKeyMaterial()
+	_, a.OtherKeyPEM = genKeyMaterial()
+	_, b.OtherKeyPEM = genKeyMaterial()
 	return
 }
 
@@ -219,6 +254,16 @@ func settings(c ecaseJSON, s secretSet, upstream string) (secret []entry) {
 		proxy.UI = nil
 		creds = append(creds, hpu{uinfo{"puser", s.Proxy, true}, uh, upt})
 	}
+	switch c.Refuse {
+	case "dup-hostport":
+		creds = []hpu{{uinfo{"suser", s.Site, true}, "origin.test", "80"}, {uinfo{"suser2", s.Site2, true}, "origin.test", "80"}}
+	case "dup-global":
+		creds = []hpu{{uinfo{"suser", s.Site, true}, "*", "0"}, {uinfo{"suser2", s.Site2, true}, "*", "0"}}
+	case "dup-host":
+		creds = []hpu{{uinfo{"suser", s.Site, true}, "*", "80"}, {uinfo{"suser2", s.Site2, true}, "*", "80"}}
+	case "dup-port":
+		creds = []hpu{{uinfo{"suser", s.Site, true}, "origin.test", "0"}, {uinfo{"suser2", s.Site2, true}, "origin.test", "0"}}
+	}
 	secret = []entry{
 		{"basic-auth", value{Kind: "userinfo", UI: &uinfo{"buser", s.Basic, true}}},
 		{"api-basic-auth", value{Kind: "userinfo", UI: &uinfo{"auser", s.API, true}}},
@@ -230,6 +275,10 @@ func settings(c ecaseJSON, s secretSet, upstream string) (secret []entry) {
 		secret = append(secret,
 			entry{"mitm-cacert-file", value{Kind: "b64", Raw: dataURIScheme(c.DataScheme, s.CAPEM)}},
 			entry{"mitm-cakey-file", value{Kind: "b64", Raw: dataURIScheme(c.DataScheme, s.KeyPEM)}})
+		if c.Refuse == "mitm-mismatch" {
+			// a key that belongs to another certificate
+			secret[len(secret)-1].V.Raw = dataURI(s.OtherKeyPEM)
+		}
 	}
 	return
 }
@@ -394,8 +443,15 @@ func basic(user, pass string) string {
 func runBinary(bin, dir string, c ecaseJSON, s secretSet, up string, proxyPort, apiPort string, tag string) runOutput {
 	var out runOutput
 	args := []string{"run", "--address", "127.0.0.1:" + proxyPort, "--api-address", "127.0.0.1:" + apiPort,
-		"--log-level", c.Level, "--log-http", c.LogHTTP, "--proxy-localhost", "allow", "--shutdown-timeout", "2s",
+		"--log-level", c.Level, "--proxy-localhost", "allow", "--shutdown-timeout", "2s",
 		"--http-response-header-timeout", "1s", "--http-dial-timeout", "1s", "--http-dial-attempts", "1"}
+	if c.SplitLogHTTP {
+		for _, part := range strings.Split(c.LogHTTP, ",") {
+			args = append(args, "--log-http", part)
+		}
+	} else {
+		args = append(args, "--log-http", c.LogHTTP)
+	}
 	if c.Format != "text" {
 		args = append(args, "--log-format", c.Format)
 	}
@@ -623,7 +679,7 @@ func needles(s secretSet) []needle {
 	if s.ClientURL != "" {
 		pw("client URL password", "cuser", s.ClientURL)
 	}
-	for _, km := range []struct{ name, pem string }{{"cacert data:", s.CAPEM}, {"mitm key data:", s.KeyPEM}} {
+	for _, km := range []struct{ name, pem string }{{"cacert data:", s.CAPEM}, {"mitm key data:", s.KeyPEM}, {"other key data:", s.OtherKeyPEM}} {
 		if km.pem == "" {
 			continue
 		}
@@ -736,19 +792,47 @@ func symdiff(a, b []string) []string {
 	return out
 }
 
-// dropLegit removes the log records the property allows to carry headers: in errors mode the dump of
-// a 5xx exchange (the statement covers errors mode "for successful exchanges").  Every other record,
-// in particular every url / short-url line and every record of a successful exchange, stays.
+// effectiveModes gives the mode each module logs in for a --log-http value (comma separated parts, in the
+// order given): the last entry naming the module, else the last unnamed entry, else the default `errors`.
+func effectiveModes(logHTTP string) map[string]string {
+	eff := map[string]string{}
+	def := "errors"
+	named := map[string]string{}
+	for _, part := range strings.Split(logHTTP, ",") {
+		if name, mode, ok := strings.Cut(part, ":"); ok {
+			named[name] = mode
+		} else if part != "" {
+			def = part
+		}
+	}
+	for _, m := range []string{"proxy", "api"} {
+		eff[m] = def
+		if v, ok := named[m]; ok {
+			eff[m] = v
+		}
+	}
+	return eff
+}
+
+// dropLegit removes the log records the property allows to carry headers: for a module configured in headers
+// or body mode its HTTP dumps, for a module in errors mode the dumps of 5xx exchanges (the statement covers
+// modes none, short-url, url, and errors "for successful exchanges").  Every other record stays, in particular
+// every record of a module configured for none / short-url / url and every successful exchange in errors mode.
 var dump5xx = regexp.MustCompile(`response="5\d\d[,"]|"status_code":5\d\d`)
+var moduleAPI = regexp.MustCompile(`module=api\b|"module":"api"`)
 
 func dropLegit(text, logHTTP string) string {
-	if !strings.Contains(logHTTP, "errors") {
-		return text
-	}
+	eff := effectiveModes(logHTTP)
 	var out []string
 	for _, l := range strings.Split(text, "\n") {
-		if strings.Contains(l, "HTTP dump") && dump5xx.MatchString(l) {
-			continue
+		if strings.Contains(l, "HTTP dump") {
+			mode := eff["proxy"]
+			if moduleAPI.MatchString(l) {
+				mode = eff["api"]
+			}
+			if mode == "headers" || mode == "body" || (mode == "errors" && dump5xx.MatchString(l)) {
+				continue
+			}
 		}
 		out = append(out, l)
 	}
@@ -829,7 +913,7 @@ func runBinaryCase(bin, dir string, idx int, c ecaseJSON) (string, runReport) {
 		rep.Err = "refused to start (spelling not accepted as inline data)"
 		return "{| e_cfg := (@nil (str * value)); e_line := None; e_leaks := 0; e_diffs := 0; e_visible := true; e_ran := true |}", rep
 	}
-	rep.Ran = (oa.started && ob.started) || (c.Class == "rejected" && !oa.started && !ob.started)
+	rep.Ran = (oa.started && ob.started) || ((c.Class == "rejected" || c.Class == "refusedcfg") && !oa.started && !ob.started)
 	if !rep.Ran {
 		rep.Err = fmt.Sprintf("started A=%v B=%v exit A=%q B=%q output A: %.400s", oa.started, ob.started, oa.exitErr, ob.exitErr, oa.proc)
 	}
